@@ -478,6 +478,8 @@ class Unknown(Exception):
 
 
 KNOWN_CALLS = {}
+# interval environment of the row being examined: sub-terms whose interval was narrowed by a comparison on the path
+IENV = {}
 
 
 class EvalPanic(Exception):
@@ -622,6 +624,8 @@ def ieval(ex, t, var, vty, vlo, vhi):
     """interval evaluation (closed interval, both ends attained or over-approximated) of a scalar term
     that depends on `var` only; every supported operation is monotone and correctly rounded, so the
     image of [vlo, vhi] is contained in the returned interval. Raises Unknown otherwise."""
+    if t in IENV:
+        return IENV[t]
     if t == var:
         return (vty, vlo, vhi)
     tag = t[0]
@@ -663,6 +667,16 @@ def ieval(ex, t, var, vty, vlo, vhi):
             if r != r:
                 raise Unknown('nan')
             return fval(ty, r)
+        inf = float('inf')
+        # an *interior* combination that is NaN (inf - inf, 0 * inf, inf / inf) is not seen at the corners: refuse
+        if op == 'Add' and ((a[2] == inf and b[1] == -inf) or (a[1] == -inf and b[2] == inf)):
+            raise Unknown('nan possible')
+        if op == 'Sub' and ((a[2] == inf and b[2] == inf) or (a[1] == -inf and b[1] == -inf)):
+            raise Unknown('nan possible')
+        if op == 'Mul' and ((a[1] <= 0 <= a[2] and (b[1] == -inf or b[2] == inf)) or (b[1] <= 0 <= b[2] and (a[1] == -inf or a[2] == inf))):
+            raise Unknown('nan possible')
+        if op == 'Div' and (a[1] == -inf or a[2] == inf) and (b[1] == -inf or b[2] == inf):
+            raise Unknown('nan possible')
         if op == 'Sub':
             cands = [f(a[1], b[2]), f(a[2], b[1])]
         elif op == 'Add':
@@ -717,6 +731,43 @@ def cond_possible(ex, cnd, val, var, vty, vlo, vhi):
             can_false = math.isinf(a[1]) or math.isinf(a[2])
             return can_true if t else can_false
     raise Unknown('cond shape')
+
+
+def refine_by_comparisons(ex, conds, var, vty, vlo, vhi):
+    """narrow IENV with the comparisons on the path (all of them hold together): A >= B gives A.lo >= B.lo and
+    B.hi <= A.hi, etc. Strict comparisons are treated as non-strict (still an over-approximation). Assumes no operand
+    is NaN (established by the caller for the variable; ieval refuses NaN-producing arithmetic). Returns False if some
+    comparison cannot hold at all (the row is infeasible)."""
+    for _ in range(3):
+        for cn, v in conds:
+            t = truth(v)
+            c = cn
+            while c[0] == 'un' and c[1] == 'Not':
+                c = c[2]
+                t = not t
+            if c[0] != 'bin' or c[1] not in ('Lt', 'Le', 'Gt', 'Ge'):
+                continue
+            try:
+                a = ieval(ex, c[2], var, vty, vlo, vhi)
+                b = ieval(ex, c[3], var, vty, vlo, vhi)
+            except Unknown:
+                continue
+            if not (sym.is_float(a[0]) and sym.is_float(b[0])):
+                continue
+            ge = (c[1] in ('Ge', 'Gt')) == t      # the path says A >= B (or >) ; otherwise A <= B (or <)
+            if ge:
+                na = (a[0], max(a[1], b[1]), a[2])
+                nb = (b[0], b[1], min(b[2], a[2]))
+            else:
+                na = (a[0], a[1], min(a[2], b[2]))
+                nb = (b[0], max(b[1], a[1]), b[2])
+            if na[1] > na[2] or nb[1] > nb[2]:
+                return False
+            if c[2][0] != 'const':
+                IENV[c[2]] = na
+            if c[3][0] != 'const':
+                IENV[c[3]] = nb
+    return True
 
 
 def monotone_inc(ex, t, var):
@@ -950,15 +1001,23 @@ def check_arbitrary_float(rep, g):
                             mx = 3.4028234663852886e38 if ty_ == 'f32' else 1.7976931348623157e308
                             vlo, vhi = -mx, mx
                     if notnan:
-                        for cn, v in o.conds:
-                            if cn[0] == 'discr':
-                                continue
-                            try:
-                                if not cond_possible(ex, cn, v, var_, ty_, vlo, vhi):
-                                    proved = True
+                        IENV.clear()
+                        try:
+                            if not refine_by_comparisons(ex, o.conds, var_, ty_, vlo, vhi):
+                                proved = True
+                            for cn, v in o.conds:
+                                if proved:
                                     break
-                            except Unknown as e:
-                                why = why or str(e)
+                                if cn[0] == 'discr':
+                                    continue
+                                try:
+                                    if not cond_possible(ex, cn, v, var_, ty_, vlo, vhi):
+                                        proved = True
+                                        break
+                                except Unknown as e:
+                                    why = why or str(e)
+                        finally:
+                            IENV.clear()
                     else:
                         why = why or 'draw may be NaN on this path'
                 except Unknown as e:
